@@ -31,11 +31,11 @@ def run(rep, props, replay=None):
     todo = []
     defect = {}
     kinds = ["uniform", "uniform-dyadic", "nonuniform", "doy", "shifted"]
-    n_cases = 10 if quick else 120
+    n_cases = 10 if quick else 60
     for i in range(n_cases):
         kind = kinds[i % len(kinds)]
-        n = int(rng.integers(3, 11 if quick else 40))
-        m = int(rng.integers(4, 13 if quick else 40))
+        n = int(rng.integers(3, 11 if quick else 30))
+        m = int(rng.integers(4, 13 if quick else 24))
         x = fd.grid(rng, m, kind)
         X = fd.smooth_curves(rng, n, x, rough=(i % 2 == 0), offset=float(rng.choice([0.0, 5.0])),
                              scale=float(rng.choice([1.0, 10.0, 0.1]))) + 0.05 * rng.normal(size=(n, m))
